@@ -62,7 +62,7 @@ func (c11) Gen(seed uint64, tier string) *Scenario {
 		m.Kind = "readonly"
 	}
 	sc := &Scenario{Prop: "C11"}
-	ntab := r.Pick(1, 2)
+	ntab := r.Pick(1, 2, 2, 3)
 	for i := 0; i < ntab; i++ {
 		rows := r.Range(1, 3)
 		if r.Bool(0.15) {
@@ -93,11 +93,19 @@ func (c11) Gen(seed uint64, tier string) *Scenario {
 					prefix += "\nCOMMIT;"
 				}
 			}
-			switch r.Intn(11) {
+			switch r.Intn(12) {
 			case 8:
 				extra = fmt.Sprintf("UPDATE %s SET n = n + 7;\nIF TRUE THEN WHILE TRUE DO EXIT 4; END WHILE; END IF;", tableName(r.Intn(ntab)))
 			case 9:
 				extra = fmt.Sprintf("DECLARE ferr FUNCTION (@a) AS BEGIN IF @a > 0 THEN TRIGGER ERROR 9 'in function'; END IF; RETURN @a; END;\nCREATE TABLE e%d (a);\nUPDATE %s SET n = ferr(id);", p, tableName(r.Intn(ntab)))
+			case 11:
+				// every table held for update (and one created) when the run ends
+				var l []string
+				for ti := 0; ti < ntab; ti++ {
+					l = append(l, fmt.Sprintf("SELECT COUNT(*) FROM %s FOR UPDATE;", tableName(ti)))
+				}
+				l = append(l, fmt.Sprintf("CREATE TABLE h%d (a);", p), r.PickS("EXIT 2;", "SELECT * FROM no_such_table;", "ROLLBACK;", "COMMIT;", fmt.Sprintf("UPDATE %s SET n = n + 1;", tableName(0))))
+				extra = strings.Join(l, "\n")
 			case 10:
 				extra = fmt.Sprintf("CREATE TABLE g%d (a, b);\nINSERT INTO g%d VALUES (1, 2);\nCOMMIT;\nINSERT INTO g%d VALUES (3, 4);\nSELECT * FROM no_such_table;", p, p, p)
 			case 0:
